@@ -42,6 +42,36 @@ pub fn compile_single(src: &str) -> Result<Compilation, CompilationError> {
     compile(&p, src)
 }
 
+/// The separate-compilation path for a single-file program: `build` package Main from a file on disk, write the
+/// artifacts, read the core back and `link` it (fresh name counters at link time, as the CLI does in a second process).
+/// Ok(linked Go text) / Err(diagnostics text).
+pub fn link_single(src: &str) -> Result<String, String> {
+    use compiler::pipeline::separate;
+    let root = scratch_dir().join(format!("link-single-{}", crate::util::hex64(crate::util::hash_str(src))));
+    let _ = std::fs::remove_dir_all(&root);
+    let art = root.join(".artifacts");
+    if std::fs::create_dir_all(&art).is_err() || std::fs::write(root.join("main.gom"), src).is_err() {
+        return Err("could not materialise the program".into());
+    }
+    let res = (|| {
+        let unit = separate::build_package(separate::PackageInputs {
+            package: "Main".to_string(),
+            input_files: vec![root.join("main.gom")],
+            interface_paths: vec![art.clone()],
+        })
+        .map_err(|e| err_messages(&e).join("; "))?;
+        let cjson = serde_json::to_string_pretty(&unit).map_err(|e| e.to_string())?;
+        let ijson = serde_json::to_string_pretty(&unit.interface).map_err(|e| e.to_string())?;
+        std::fs::write(art.join("Main.interface"), ijson).map_err(|e| e.to_string())?;
+        std::fs::write(art.join("Main.core"), cjson).map_err(|e| e.to_string())?;
+        let core = separate::read_core(&art.join("Main.core")).map_err(|e| err_messages(&e).join("; "))?;
+        let l = separate::link_cores(vec![core]).map_err(|e| err_messages(&e).join("; "))?;
+        Ok(l.go.to_pretty(&l.goenv, 120))
+    })();
+    let _ = std::fs::remove_dir_all(&root);
+    res
+}
+
 pub fn go_text(c: &Compilation) -> String {
     c.go.to_pretty(&c.goenv, 120)
 }
